@@ -330,6 +330,36 @@ fn zip_forward(f: fn(Float, Float) -> Float) -> ForwardOp {
     })
 }
 
+thread_local! {
+    /// handles kept by the "...k" variants of the custom closures on every array they return, with a copy of the
+    /// values at that moment (C08: nothing may change an existing array)
+    static KEPT: RefCell<Vec<(Array, Vec<Float>)>> = RefCell::new(Vec::new());
+}
+
+fn keep_it(keep: bool, a: Array) -> Array {
+    if keep {
+        KEPT.with(|k| k.borrow_mut().push((a.clone(), a.values().to_vec())));
+    }
+    a
+}
+
+/// (changed, total) over the kept handles; empties the list
+fn kept_report() -> (usize, usize) {
+    KEPT.with(|k| {
+        let mut k = k.borrow_mut();
+        let total = k.len();
+        let bad = k
+            .iter()
+            .filter(|(a, v)| {
+                a.values().len() != v.len()
+                    || a.values().iter().zip(v.iter()).any(|(x, y)| x.to_bits() != y.to_bits())
+            })
+            .count();
+        k.clear();
+        (bad, total)
+    })
+}
+
 fn log_call(tag: usize, delta: &Array) {
     LOG.with(|l| {
         l.borrow_mut()
@@ -339,6 +369,9 @@ fn log_call(tag: usize, delta: &Array) {
 
 fn custom(name: &str, tag: usize, args: &[&Array]) -> Array {
     let mul = zip_forward(|a, b| a * b);
+    // "mulk" / "affk" / "sqk": the same operations whose closures keep a handle on everything they return
+    let keep = name.len() > 2 && name.ends_with('k');
+    let name = if keep { &name[..name.len() - 1] } else { name };
     match name {
         "mul" => {
             let m = Rc::clone(&mul);
@@ -346,12 +379,12 @@ fn custom(name: &str, tag: usize, args: &[&Array]) -> Array {
                 log_call(tag, x);
                 vec![
                     if t[0] {
-                        Some(Array::op(&[&c[1], x], Rc::clone(&m), None))
+                        Some(keep_it(keep, Array::op(&[&c[1], x], Rc::clone(&m), None)))
                     } else {
                         None
                     },
                     if t[1] {
-                        Some(Array::op(&[&c[0], x], Rc::clone(&m), None))
+                        Some(keep_it(keep, Array::op(&[&c[0], x], Rc::clone(&m), None)))
                     } else {
                         None
                     },
@@ -364,8 +397,8 @@ fn custom(name: &str, tag: usize, args: &[&Array]) -> Array {
             let backward: BackwardOp = Rc::new(move |_, t, x| {
                 log_call(tag, x);
                 vec![
-                    if t[0] { Some(x.clone()) } else { None },
-                    if t[1] { Some(x * 2.0) } else { None },
+                    if t[0] { Some(keep_it(keep, x.clone())) } else { None },
+                    if t[1] { Some(keep_it(keep, x * 2.0)) } else { None },
                 ]
             });
             Array::op(args, fwd, Some(backward))
@@ -376,7 +409,7 @@ fn custom(name: &str, tag: usize, args: &[&Array]) -> Array {
             let backward: BackwardOp = Rc::new(move |c, t, x| {
                 log_call(tag, x);
                 vec![if t[0] {
-                    Some(Array::op(&[&(&c[0] * 2.0), x], Rc::clone(&m), None))
+                    Some(keep_it(keep, Array::op(&[&(&c[0] * 2.0), x], Rc::clone(&m), None)))
                 } else {
                     None
                 }]
@@ -796,12 +829,17 @@ fn main() {
         } else if line == "end" {
             writeln!(w, "case {}", name).unwrap();
             w.flush().unwrap();
+            kept_report();
             match instrs.first() {
                 Some(Instr::Model(specs, c, lr)) => {
                     let (specs, c, lr) = (specs.clone(), c.clone(), *lr);
                     run_model(&specs, &c, lr, &instrs[1..], &mut w)
                 }
                 _ => run_plain(&instrs, &mut w),
+            }
+            let (bad, total) = kept_report();
+            if total > 0 {
+                writeln!(w, "k {} {}", bad, total).unwrap();
             }
             writeln!(w, "end").unwrap();
             w.flush().unwrap();
